@@ -1066,6 +1066,7 @@ DLLIMPORT cfg_value_t *cfg_setopt(cfg_t *cfg, cfg_opt_t *opt, const char *value)
 
 	case CFGT_PTR:
 		if (!opt->parsecb) {
+			cfg_error(cfg, _("no parse callback for option '%s'"), opt->name);
 			errno = EINVAL;
 			return NULL;
 		}
